@@ -7,6 +7,7 @@ import (
 	"fmt"
 
 	"github.com/cockroachdb/errors"
+	"github.com/cockroachdb/errors/errbase"
 	"github.com/cockroachdb/errors/errorspb"
 	"github.com/gogo/protobuf/proto"
 )
@@ -176,6 +177,79 @@ func init() {
 			return nil
 		}
 		return &URegLeaf{Msg: m.Msg}
+	})
+}
+
+// URegWrap: prefix wrapper with a registered encoder and decoder.
+type URegWrap struct {
+	Pfx string
+	Err error
+}
+
+func (e *URegWrap) Error() string {
+	if e.Pfx == "" {
+		return e.Err.Error()
+	}
+	return e.Pfx + ": " + e.Err.Error()
+}
+func (e *URegWrap) Unwrap() error { return e.Err }
+
+// URegWrapFull: wrapper owning the whole message, registered with
+// RegisterWrapperEncoderWithMessageType (FullMessage).
+type URegWrapFull struct {
+	Msg string
+	Err error
+}
+
+func (e *URegWrapFull) Error() string { return e.Msg }
+func (e *URegWrapFull) Unwrap() error { return e.Err }
+
+// URegMulti: multi-cause node with its own text, registered with
+// RegisterMultiCauseEncoder / RegisterMultiCauseDecoder.
+type URegMulti struct {
+	Msg  string
+	Errs []error
+}
+
+func (e *URegMulti) Error() string   { return e.Msg }
+func (e *URegMulti) Unwrap() []error { return e.Errs }
+
+func init() {
+	k := errors.GetTypeKey((*URegWrap)(nil))
+	errors.RegisterWrapperEncoder(k, func(_ context.Context, err error) (string, []string, proto.Message) {
+		w := err.(*URegWrap)
+		return w.Pfx, nil, &errorspb.StringPayload{Msg: w.Pfx}
+	})
+	errors.RegisterWrapperDecoder(k, func(_ context.Context, cause error, _ string, _ []string, payload proto.Message) error {
+		m, ok := payload.(*errorspb.StringPayload)
+		if !ok {
+			return nil
+		}
+		return &URegWrap{Pfx: m.Msg, Err: cause}
+	})
+	k = errors.GetTypeKey((*URegWrapFull)(nil))
+	errors.RegisterWrapperEncoderWithMessageType(k, func(_ context.Context, err error) (string, []string, proto.Message, errbase.MessageType) {
+		w := err.(*URegWrapFull)
+		return w.Msg, nil, &errorspb.StringPayload{Msg: w.Msg}, errbase.FullMessage
+	})
+	errors.RegisterWrapperDecoder(k, func(_ context.Context, cause error, _ string, _ []string, payload proto.Message) error {
+		m, ok := payload.(*errorspb.StringPayload)
+		if !ok {
+			return nil
+		}
+		return &URegWrapFull{Msg: m.Msg, Err: cause}
+	})
+	k = errors.GetTypeKey((*URegMulti)(nil))
+	errors.RegisterMultiCauseEncoder(k, func(_ context.Context, err error) (string, []string, proto.Message) {
+		w := err.(*URegMulti)
+		return w.Msg, nil, &errorspb.StringPayload{Msg: w.Msg}
+	})
+	errors.RegisterMultiCauseDecoder(k, func(_ context.Context, causes []error, _ string, _ []string, payload proto.Message) error {
+		m, ok := payload.(*errorspb.StringPayload)
+		if !ok {
+			return nil
+		}
+		return &URegMulti{Msg: m.Msg, Errs: causes}
 	})
 }
 
